@@ -12,14 +12,16 @@ Proved here:
 * `C15_87c_length`   – decoded length = bytes consumed (the C counter `nData`), at most 4, fixed by the two opcode bytes;
 * `C15_87c_no_hang`  – every decode reports a positive length or writes an error message (no case loops, none reports length 0
                        silently); `C15_87c_inv16_is_unknown`: the byte pairs that used to loop are listed as data;
-* `C15_87c_honest`   – `Honest` (every byte of a reported instruction lies in the image) for every image in which address 0 is not
-                       loaded (no other hypothesis since the repair of `RetrieveCodeFromChunkList`), so that `C15_areas_inside`
-                       instantiates: `C15_87c_areas_inside`; `C15_87c_cut_instruction_not_reported`;
+* `C15_87c_honest`   – `Honest` (every byte of a reported instruction lies in the image) for EVERY image (no hypothesis left: the
+                       one about whole instructions went with the repair of `RetrieveCodeFromChunkList`, the one about address 0 /
+                       the end of the address space with the repair of `RetrieveData` in deco87c800.c), `C15_87c_honest_at` and
+                       `C15_87c_areas_inside`/`_C` unconditionally and with `x < 0x10000`; `C15_87c_inside_address_space`;
+                       `C15_87c_cut_instruction_not_reported`, `C15_87c_no_wrap_instruction`;
 * `C15_87c_jump_roundtrip_partial` / `C15_87c_jump_text_roundtrip` – jumps and calls against code87c800.c, on evaluated operands
                        and on the printed text; `C15_87c_callp_forward_label` – the first pass of `callp <label printed by dasl>`;
 * `C15_87c_numbers_have_suffix`, `C15_87c_symbol_is_last`, `C15_87c_reg16_names`, `C15_87c_returns_end_trace`,
   `C15_87c_dw_starts_with_digit` – the five repaired defects as positive facts about the model of the repaired code;
-* `C15_finding_87c_*` – the remaining oddities of deco87c800.c the model transcribes.
+* `C15_finding_87c_*` – the remaining oddities of deco87c800.c the model transcribes (`% 0xffff` fall-through, `ld (hl),<mem>`).
 Not proved (tested against the real tools every run): the text of the non-jump instructions against asl's parser. -/
 namespace AslModel.Dis
 open M87C
@@ -73,60 +75,61 @@ example : (M87C.raw [⟨0x1000, [0xe0, 0x12, 0x77, 0x55]⟩] false {} 0x1000 fal
 
 /-! ### the reported areas lie inside the image -/
 
-/-- `Disassemble_87C800` at `a` reports only bytes of the image, provided the instruction it reports does not run through the end of
-the 64K address space (or address 0 is no byte of the image, so that nothing can be fetched through the wrap of `RetrieveData`).
-No assumption about the image: every byte of the reported length lies in a request `RetrieveData` answered (`raw_covered`), and
-`RetrieveCodeFromChunkList` answers a request only with bytes of the image (`retrieve_some`). -/
-theorem C15_87c_honest_at (img : Image) (lower : Bool) (syms : Syms) (a : Nat)
-    (hw : a + (M87C.disassemble img lower syms a false (-1)).1.len ≤ 0x10000 ∨ ¬ inImage img 0) :
-    ∀ x, a ≤ x → x < a + (M87C.disassemble img lower syms a false (-1)).1.len → inImage img x := by
+/-- `Disassemble_87C800` at `a` reports only bytes of the image, and only addresses of the 64K address space - for every image,
+every address and every inverse symbol table: every byte of the reported length lies in a request `RetrieveData` answered
+(`raw_covered`), `RetrieveData` answers no request that reaches beyond 0FFFFh, and `RetrieveCodeFromChunkList` answers a request only
+with bytes of the image (`retrieve_some`).  Before the repair of deco87c800.c (29b7faa) this needed "the
+instruction ends at or below 0x10000, or address 0 is not loaded". -/
+theorem C15_87c_honest_at (img : Image) (lower : Bool) (syms : Syms) (a : Nat) :
+    ∀ x, a ≤ x → x < a + (M87C.disassemble img lower syms a false (-1)).1.len → inImage img x ∧ x < 0x10000 := by
   intro x hx1 hx2
-  rw [(C15_87c_length img lower syms a).1] at hx2 hw
+  rw [(C15_87c_length img lower syms a).1] at hx2
   obtain ⟨y, n, ds, e, hr, hy1, hy2⟩ := raw_covered img lower syms a x hx1 hx2
   have := retrieveData_inImage img lower y n ds e hr (x - y) (by omega)
-    (by rcases hw with hw | hw
-        · left; omega
-        · right; exact hw)
   have he : y + (x - y) = x := by omega
   rw [he] at this; exact this
 
-/-- the `Honest` predicate of the generic trace-loop theorems holds for every image in which address 0 is not loaded.  The former
-hypothesis that every instruction-shaped byte sequence of the image is whole is gone. -/
-theorem C15_87c_honest (img : Image) (lower : Bool) (h00 : ¬ inImage img 0) : Honest M87C.disassemble img lower := by
-  intro syms a x hx1 hx2
-  exact C15_87c_honest_at img lower syms a (Or.inr h00) x hx1 hx2
+/-- non-vacuity of `C15_87c_honest_at`: `ld wa,1234h` at 1000h is reported with length 3 -/
+example : (M87C.disassemble [⟨0x1000, [0x14, 0x34, 0x12]⟩] false {} 0x1000 false (-1)).1.len = 3 := by decide +kernel
 
-/-- for the TLCS-870 the reported code areas lie inside the loaded image if no traced instruction runs through the end of the 64K
-address space (or address 0 is not loaded) -/
-theorem C15_87c_areas_inside (img : Image) (lower : Bool) (fuel : Nat) (s0 : TState) (h0 : s0.code = []) (h1 : s0.traced = [])
-    (hw : (∀ e ∈ (traceLoop M87C.disassemble img lower fuel s0).1.traced, e.1 + e.2 ≤ 0x10000) ∨ ¬ inImage img 0) :
-    ∀ x, area (traceLoop M87C.disassemble img lower fuel s0).1.code x → inImage img x := by
+/-- a reported instruction ends inside the 64K address space: `Address + CodeLen ≤ 0x10000` -/
+theorem C15_87c_inside_address_space (img : Image) (lower : Bool) (syms : Syms) (a : Nat)
+    (h : (M87C.disassemble img lower syms a false (-1)).1.len ≠ 0) :
+    a + (M87C.disassemble img lower syms a false (-1)).1.len ≤ 0x10000 := by
+  have := (C15_87c_honest_at img lower syms a (a + (M87C.disassemble img lower syms a false (-1)).1.len - 1) (by omega) (by omega)).2
+  omega
+
+/-- the `Honest` predicate of the generic trace-loop theorems holds for the TLCS-870 callback on EVERY image (before the repair:
+only for images in which address 0 is not loaded) -/
+theorem C15_87c_honest (img : Image) (lower : Bool) : Honest M87C.disassemble img lower := by
+  intro syms a x hx1 hx2
+  exact (C15_87c_honest_at img lower syms a x hx1 hx2).1
+
+/-- for the TLCS-870 the reported code areas lie inside the loaded image (and inside the 64K address space) - for every image, every
+set of entry addresses already queued in `s0`, every number of rounds -/
+theorem C15_87c_areas_inside (img : Image) (lower : Bool) (fuel : Nat) (s0 : TState) (h0 : s0.code = []) (h1 : s0.traced = []) :
+    ∀ x, area (traceLoop M87C.disassemble img lower fuel s0).1.code x → inImage img x ∧ x < 0x10000 := by
   intro x hx
   have hA := (C15_areas M87C.disassemble img lower fuel s0 h0 h1).2.2 x
   have hF := traceLoop_from M87C.disassemble img lower fuel s0 (by rw [h1]; intro e he; cases he)
   obtain ⟨e, he, hx1, hx2⟩ := hA.mp hx
   obtain ⟨syms, hlen, _⟩ := hF e he
-  refine C15_87c_honest_at img lower syms e.1 ?_ x hx1 (by rw [hlen]; exact hx2)
-  rcases hw with hw | hw
-  · left; rw [hlen]; exact hw e he
-  · right; exact hw
+  exact C15_87c_honest_at img lower syms e.1 x hx1 (by rw [hlen]; exact hx2)
 
 /-- …the same for the array `UsedCodeChunks` as chunks.c keeps it (the list the machine carries; `C15_areas_C`) -/
-theorem C15_87c_areas_inside_C (img : Image) (lower : Bool) (fuel : Nat) (s0 : TState) (h0 : s0.codeC = []) (h1 : s0.traced = [])
-    (hw : (∀ e ∈ (traceLoop M87C.disassemble img lower fuel s0).1.traced, e.1 + e.2 ≤ 0x10000) ∨ ¬ inImage img 0) :
-    ∀ x, area (traceLoop M87C.disassemble img lower fuel s0).1.codeC x → inImage img x := by
+theorem C15_87c_areas_inside_C (img : Image) (lower : Bool) (fuel : Nat) (s0 : TState) (h0 : s0.codeC = []) (h1 : s0.traced = []) :
+    ∀ x, area (traceLoop M87C.disassemble img lower fuel s0).1.codeC x → inImage img x ∧ x < 0x10000 := by
   intro x hx
   have hA := (C15_areas_C M87C.disassemble img lower fuel s0 h0 h1).2.2.1 x
   have hF := traceLoop_from M87C.disassemble img lower fuel s0 (by rw [h1]; intro e he; cases he)
   obtain ⟨e, he, hx1, hx2⟩ := hA.mp hx
   obtain ⟨syms, hlen, _⟩ := hF e he
-  refine C15_87c_honest_at img lower syms e.1 ?_ x hx1 (by rw [hlen]; exact hx2)
-  rcases hw with hw | hw
-  · left; rw [hlen]; exact hw e he
-  · right; exact hw
+  exact C15_87c_honest_at img lower syms e.1 x hx1 (by rw [hlen]; exact hx2)
 
-/-- non-vacuity of the hypothesis of `C15_87c_honest`: the image `00 14 34` at 1000h – with an instruction cut off by its end -/
-example : ¬ inImage [⟨0x1000, [0x00, 0x14, 0x34]⟩] 0 := by simp [inImage]
+/-- non-vacuity of the two area theorems: tracing the image `14 34 | 12` at 0FFFEh / 0 plus `00 05` (`nop`, `ret`) at 1000h from the
+entries 1000h and 0FFFEh gives a non-empty code area at 1000h, and nothing at 0FFFEh -/
+example : ((traceLoop M87C.disassemble [⟨0, [0x12]⟩, ⟨0x1000, [0x00, 0x05]⟩, ⟨0xfffe, [0x14, 0x34]⟩] false 10
+      { queue := [0x1000, 0xfffe] }).1.codeC) = [⟨0x1000, 2⟩] := by decide +kernel
 
 /-! ### round trip of the jump and call instructions against code87c800.c (partial) -/
 
@@ -514,12 +517,18 @@ theorem C15_87c_cut_instruction_not_reported :
     ¬ inImage [⟨0x1000, [0x00, 0x14, 0x34]⟩] 0x1003 := by
   refine ⟨by decide +kernel, by decide +kernel, by simp [inImage]⟩
 
-/-- deco87c800.c's own `RetrieveData` still continues at address 0 behind 0FFFFh (as deco68.c's does, finding
-`dasl-instruction-wraps-64k`): `14 34` at 0FFFEh with a byte at 0 gives a 3-byte `ld wa,nn`; hence the hypothesis of
-`C15_87c_honest_at` -/
-theorem C15_finding_87c_wrap_instruction :
-    (M87C.disassemble [⟨0, [0x12]⟩, ⟨0xfffe, [0x14, 0x34]⟩] false {} 0xfffe false (-1)).1.len = 3 ∧
-    ¬ inImage [⟨0, [0x12]⟩, ⟨0xfffe, [0x14, 0x34]⟩] 0x10000 := by
-  refine ⟨by decide +kernel, by simp [inImage]⟩
+/-- an instruction that would need bytes behind 0FFFFh is not reported (repair of deco87c800.c, 29b7faa; formerly
+`RetrieveData` continued at address 0: `14 34` at 0FFFEh with a byte at 0 gave a 3-byte `ld wa,nn` and the code area `FFFE...10000`
+outside the image - finding `dasl-instruction-wraps-64k`).  Now: no instruction at 0FFFEh (length 0), the message
+`cannot retrieve code @ 0xFFFF`, nothing traced, no code area; an opcode asked for at 10000h is not fetched from address 0; a
+one-byte instruction AT 0FFFFh is still reported. -/
+theorem C15_87c_no_wrap_instruction :
+    (M87C.disassemble [⟨0, [0x12]⟩, ⟨0xfffe, [0x14, 0x34]⟩] false {} 0xfffe false (-1)).1.len = 0 ∧
+    (M87C.disassemble [⟨0, [0x12]⟩, ⟨0xfffe, [0x14, 0x34]⟩] false {} 0xfffe false (-1)).2.2 = ["cannot retrieve code @ 0xFFFF"] ∧
+    (traceLoop M87C.disassemble [⟨0, [0x12]⟩, ⟨0xfffe, [0x14, 0x34]⟩] false 10 { queue := [0xfffe] }).1.codeC = [] ∧
+    (traceLoop M87C.disassemble [⟨0, [0x12]⟩, ⟨0xfffe, [0x14, 0x34]⟩] false 10 { queue := [0xfffe] }).1.traced = [] ∧
+    (M87C.disassemble [⟨0, [0x12]⟩, ⟨0xfffe, [0x14, 0x34]⟩] false {} 0x10000 false (-1)).1.len = 0 ∧
+    (M87C.disassemble [⟨0, [0x00]⟩, ⟨0xffff, [0x00]⟩] false {} 0xffff false (-1)).1.len = 1 := by
+  decide +kernel
 
 end AslModel.Dis
